@@ -122,10 +122,21 @@ fn sterm_json(t: &STerm) -> Value {
 }
 
 /// the query tree as it was built, floats as bit words
+/// the scored text fields of an index, in schema order ("body" alone in the single-field families)
+type Fields = Vec<(String, Field)>;
+
+fn field_name(q: &Value) -> &str {
+    q["f"].as_str().unwrap_or("body")
+}
+fn field_of(fields: &Fields, q: &Value) -> Field {
+    let name = field_name(q);
+    fields.iter().find(|(n, _)| n == name).unwrap_or_else(|| panic!("unknown field {name}")).1
+}
+
 fn query_json(q: &Value) -> Value {
     match q["k"].as_str().unwrap_or("") {
-        "term" => json!({"k": "term", "w": q["w"]}),
-        "phrase" => json!({"k": "phrase", "ws": q["ws"]}),
+        "term" => json!({"k": "term", "w": q["w"], "f": field_name(q)}),
+        "phrase" => json!({"k": "phrase", "ws": q["ws"], "f": field_name(q)}),
         "bool" => json!({"k": "bool", "cl": q["cl"].as_array().unwrap().iter().map(|c| json!({"o": c["o"], "q": query_json(&c["q"])})).collect::<Vec<_>>()}),
         "boost" => json!({"k": "boost", "b": words(q["b"].as_f64().unwrap() as f32), "q": query_json(&q["q"])}),
         "const" => json!({"k": "const", "c": words(q["c"].as_f64().unwrap() as f32), "q": query_json(&q["q"])}),
@@ -134,14 +145,14 @@ fn query_json(q: &Value) -> Value {
     }
 }
 
-fn build_query(q: &Value, body: Field) -> Box<dyn Query> {
+fn build_query(q: &Value, fields: &Fields) -> Box<dyn Query> {
     match q["k"].as_str().unwrap_or("") {
         "term" => {
             let opt = if q["opt"].as_str() == Some("pos") { IndexRecordOption::WithFreqsAndPositions } else { IndexRecordOption::WithFreqs };
-            Box::new(TermQuery::new(Term::from_field_text(body, q["w"].as_str().unwrap()), opt))
+            Box::new(TermQuery::new(Term::from_field_text(field_of(fields, q), q["w"].as_str().unwrap()), opt))
         }
         "phrase" => Box::new(PhraseQuery::new(
-            q["ws"].as_array().unwrap().iter().map(|w| Term::from_field_text(body, w.as_str().unwrap())).collect(),
+            q["ws"].as_array().unwrap().iter().map(|w| Term::from_field_text(field_of(fields, q), w.as_str().unwrap())).collect(),
         )),
         "bool" => {
             let cl: Vec<(Occur, Box<dyn Query>)> = q["cl"]
@@ -155,15 +166,15 @@ fn build_query(q: &Value, body: Field) -> Box<dyn Query> {
                         "mustnot" => Occur::MustNot,
                         o => panic!("occur {o}"),
                     };
-                    (o, build_query(&c["q"], body))
+                    (o, build_query(&c["q"], fields))
                 })
                 .collect();
             Box::new(BooleanQuery::new(cl))
         }
-        "boost" => Box::new(BoostQuery::new(build_query(&q["q"], body), q["b"].as_f64().unwrap() as f32)),
-        "const" => Box::new(ConstScoreQuery::new(build_query(&q["q"], body), q["c"].as_f64().unwrap() as f32)),
+        "boost" => Box::new(BoostQuery::new(build_query(&q["q"], fields), q["b"].as_f64().unwrap() as f32)),
+        "const" => Box::new(ConstScoreQuery::new(build_query(&q["q"], fields), q["c"].as_f64().unwrap() as f32)),
         "dismax" => Box::new(DisjunctionMaxQuery::with_tie_breaker(
-            q["qs"].as_array().unwrap().iter().map(|x| build_query(x, body)).collect(),
+            q["qs"].as_array().unwrap().iter().map(|x| build_query(x, fields)).collect(),
             q["tie"].as_f64().unwrap() as f32,
         )),
         k => panic!("query kind {k}"),
@@ -206,7 +217,7 @@ impl SegmentCollector for AllScoresSeg {
 // ------------------------------------------------------------------------------------------
 struct Built {
     index: Index,
-    body: Field,
+    fields: Fields,
     /// for the merged index: the source segments (document ids, deleted ones included) and the id of
     /// the segment the merge produced (None: nothing was left alive)
     merge: Option<(Vec<Vec<u64>>, Option<tantivy::index::SegmentId>)>,
@@ -227,20 +238,42 @@ fn doc_text(d: &Value, filler: &str) -> String {
 
 /// `merge`: positions (1-based) of the cuts whose segments are merged (`IndexWriter::merge(..).wait()`)
 /// after all commits and deletes.
+/// the documents of a case, every one as a record field -> {toks, pad} (a single-field document
+/// {toks, pad} is the content of the field "body")
+fn case_fields(case: &Value) -> Vec<String> {
+    case["fields"].as_array().map(|a| a.iter().map(|x| x.as_str().unwrap().to_string()).collect()).unwrap_or_else(|| vec!["body".to_string()])
+}
+fn case_docs(case: &Value) -> Vec<Value> {
+    let fields = case_fields(case);
+    case["docs"].as_array().unwrap().iter().map(|d| {
+        if d.get("toks").is_some() {
+            json!({"body": d})
+        } else {
+            let mut m = Map::new();
+            for f in &fields {
+                m.insert(f.clone(), d.get(f).cloned().unwrap_or(json!({"toks": [], "pad": 0})));
+            }
+            Value::Object(m)
+        }
+    }).collect()
+}
+
 fn build_index(case: &Value, cuts: &[usize], merge: Option<&[usize]>) -> tantivy::Result<Built> {
     let mut sb = Schema::builder();
-    let body = sb.add_text_field("body", TEXT);
+    let fields: Fields = case_fields(case).into_iter().map(|f| { let fld = sb.add_text_field(&f, TEXT); (f, fld) }).collect();
     let id = sb.add_u64_field("id", INDEXED | FAST | STORED);
     let index = Index::create_in_ram(sb.build());
     let mut w: IndexWriter = index.writer_with_num_threads(1, 15_000_000)?;
     w.set_merge_policy(Box::new(NoMergePolicy));
     let filler = case["filler"].as_str().unwrap_or("z");
-    let docs = case["docs"].as_array().unwrap();
+    let docs = case_docs(case);
     let mut next = 0usize;
     for c in cuts {
         for _ in 0..*c {
             let mut d = TantivyDocument::new();
-            d.add_text(body, doc_text(&docs[next], filler));
+            for (name, fld) in &fields {
+                d.add_text(*fld, doc_text(&docs[next][name], filler));
+            }
             d.add_u64(id, (next + 1) as u64);
             w.add_document(d)?;
             next += 1;
@@ -280,7 +313,7 @@ fn build_index(case: &Value, cuts: &[usize], merge: Option<&[usize]>) -> tantivy
         }
     }
     w.wait_merging_threads()?;
-    Ok(Built { index, body, merge: merge_info })
+    Ok(Built { index, fields, merge: merge_info })
 }
 
 /// id (1-based position in the corpus) of every document of a segment, from the fast field
@@ -289,21 +322,28 @@ fn seg_ids(sr: &SegmentReader) -> Vec<u64> {
     (0..sr.max_doc()).map(|d| col.first(d).unwrap_or(0)).collect()
 }
 
-fn observe_index(searcher: &Searcher, body: Field, vocab: &[String], merged: Option<tantivy::index::SegmentId>) -> Value {
+fn observe_index(searcher: &Searcher, fields: &Fields, vocab: &[String], merged: Option<tantivy::index::SegmentId>) -> Value {
     let mut segs = vec![];
     for sr in searcher.segment_readers() {
         let ids = seg_ids(sr);
         let dead: Vec<u64> = (0..sr.max_doc()).filter(|d| sr.is_deleted(*d)).map(|d| ids[d as usize]).collect();
-        let inv = sr.inverted_index(body).expect("inverted index");
-        let fnr = sr.get_fieldnorms_reader(body).expect("fieldnorm reader");
-        let fnids: Vec<u8> = (0..sr.max_doc()).map(|d| fnr.fieldnorm_id(d)).collect();
-        let fns: Vec<u32> = (0..sr.max_doc()).map(|d| fnr.fieldnorm(d)).collect();
-        let mut df = Map::new();
-        for w in vocab {
-            df.insert(w.clone(), json!(inv.doc_freq(&Term::from_field_text(body, w)).expect("doc_freq")));
+        let (mut tj, mut dfj, mut fnidj, mut fnj) = (Map::new(), Map::new(), Map::new(), Map::new());
+        for (name, fld) in fields {
+            let inv = sr.inverted_index(*fld).expect("inverted index");
+            let fnr = sr.get_fieldnorms_reader(*fld).expect("fieldnorm reader");
+            let fnids: Vec<u8> = (0..sr.max_doc()).map(|d| fnr.fieldnorm_id(d)).collect();
+            let fns: Vec<u32> = (0..sr.max_doc()).map(|d| fnr.fieldnorm(d)).collect();
+            let mut df = Map::new();
+            for w in vocab {
+                df.insert(w.clone(), json!(inv.doc_freq(&Term::from_field_text(*fld, w)).expect("doc_freq")));
+            }
+            tj.insert(name.clone(), json!(inv.total_num_tokens()));
+            dfj.insert(name.clone(), Value::Object(df));
+            fnidj.insert(name.clone(), json!(fnids));
+            fnj.insert(name.clone(), json!(fns));
         }
         let mut seg = json!({"docs": ids, "dead": dead, "max_doc": sr.max_doc(), "num_docs": sr.num_docs(),
-            "T": inv.total_num_tokens(), "df": df, "fnids": fnids, "fns": fns});
+            "T": tj, "df": dfj, "fnids": fnidj, "fns": fnj});
         if merged == Some(sr.segment_id()) {
             seg["merged"] = json!(true);
         }
@@ -312,43 +352,51 @@ fn observe_index(searcher: &Searcher, body: Field, vocab: &[String], merged: Opt
     json!(segs)
 }
 
-/// what the postings of one segment say about one document: tf and positions per word
+/// what the postings of one segment say about one document: per field, tf and positions per word
+/// and the field-norm id
 struct DocObs {
-    tf: BTreeMap<String, u32>,
-    pos: BTreeMap<String, Vec<u32>>,
-    fnid: u8,
+    tf: BTreeMap<String, BTreeMap<String, u32>>,
+    pos: BTreeMap<String, BTreeMap<String, Vec<u32>>>,
+    fnid: BTreeMap<String, u8>,
 }
 
-fn observe_doc(sr: &SegmentReader, body: Field, vocab: &[String], doc: DocId) -> DocObs {
-    let inv = sr.inverted_index(body).expect("inverted index");
-    let mut tf = BTreeMap::new();
-    let mut pos = BTreeMap::new();
-    for w in vocab {
-        let term = Term::from_field_text(body, w);
-        let mut f = 0u32;
-        let mut p: Vec<u32> = vec![];
-        if let Some(mut post) = inv.read_postings(&term, IndexRecordOption::WithFreqsAndPositions).expect("postings") {
-            if post.doc() != TERMINATED && (post.doc() == doc || (post.doc() < doc && post.seek(doc) == doc)) {
-                f = post.term_freq();
-                post.positions(&mut p);
+fn observe_doc(sr: &SegmentReader, fields: &Fields, vocab: &[String], doc: DocId) -> DocObs {
+    let (mut tfs, mut poss, mut fnids) = (BTreeMap::new(), BTreeMap::new(), BTreeMap::new());
+    for (name, fld) in fields {
+        let inv = sr.inverted_index(*fld).expect("inverted index");
+        let mut tf = BTreeMap::new();
+        let mut pos = BTreeMap::new();
+        for w in vocab {
+            let term = Term::from_field_text(*fld, w);
+            let mut f = 0u32;
+            let mut p: Vec<u32> = vec![];
+            if let Some(mut post) = inv.read_postings(&term, IndexRecordOption::WithFreqsAndPositions).expect("postings") {
+                if post.doc() != TERMINATED && (post.doc() == doc || (post.doc() < doc && post.seek(doc) == doc)) {
+                    f = post.term_freq();
+                    post.positions(&mut p);
+                }
             }
+            tf.insert(w.clone(), f);
+            pos.insert(w.clone(), p);
         }
-        tf.insert(w.clone(), f);
-        pos.insert(w.clone(), p);
+        tfs.insert(name.clone(), tf);
+        poss.insert(name.clone(), pos);
+        fnids.insert(name.clone(), sr.get_fieldnorms_reader(*fld).expect("fieldnorm reader").fieldnorm_id(doc));
     }
-    let fnid = sr.get_fieldnorms_reader(body).expect("fieldnorm reader").fieldnorm_id(doc);
-    DocObs { tf, pos, fnid }
+    DocObs { tf: tfs, pos: poss, fnid: fnids }
 }
 
-/// number of positions at which the words occur consecutively (read from the index positions)
-fn phrase_count(o: &DocObs, ws: &[String]) -> u32 {
+/// number of positions at which the words occur consecutively in the field (read from the index positions)
+fn phrase_count(o: &DocObs, field: &str, ws: &[String]) -> u32 {
     let empty = vec![];
-    let first = o.pos.get(&ws[0]).unwrap_or(&empty);
+    let none = BTreeMap::new();
+    let pos = o.pos.get(field).unwrap_or(&none);
+    let first = pos.get(&ws[0]).unwrap_or(&empty);
     let mut n = 0;
     for p in first {
         let mut ok = true;
         for (i, w) in ws.iter().enumerate().skip(1) {
-            if !o.pos.get(w).unwrap_or(&empty).contains(&(p + i as u32)) {
+            if !pos.get(w).unwrap_or(&empty).contains(&(p + i as u32)) {
                 ok = false;
                 break;
             }
@@ -368,10 +416,28 @@ fn stage(s: &'static str) {
     STAGE.with(|c| c.set(s));
 }
 
+/// the statistics the searcher hands to the weights: N, and per field T and n(t)
 struct Stats {
     n_docs: u64,
-    n_tokens: u64,
-    df: BTreeMap<String, u64>,
+    n_tokens: BTreeMap<String, u64>,
+    df: BTreeMap<String, BTreeMap<String, u64>>,
+}
+impl Stats {
+    fn read(searcher: &Searcher, fields: &Fields, vocab: &[String]) -> Result<Stats, String> {
+        let (mut n_tokens, mut df) = (BTreeMap::new(), BTreeMap::new());
+        for (name, fld) in fields {
+            let mut d = BTreeMap::new();
+            for w in vocab {
+                d.insert(w.clone(), Bm25StatisticsProvider::doc_freq(searcher, &Term::from_field_text(*fld, w)).map_err(|e| e.to_string())?);
+            }
+            df.insert(name.clone(), d);
+            n_tokens.insert(name.clone(), Bm25StatisticsProvider::total_num_tokens(searcher, *fld).map_err(|e| e.to_string())?);
+        }
+        Ok(Stats { n_docs: Bm25StatisticsProvider::total_num_docs(searcher).map_err(|e| e.to_string())?, n_tokens, df })
+    }
+    fn n(&self, f: &str, w: &str) -> u64 {
+        self.df.get(f).and_then(|m| m.get(w)).copied().unwrap_or(0)
+    }
 }
 
 /// the symbolic term of (q, doc) built from what was observed; None = the document does not match
@@ -379,19 +445,21 @@ fn sterm(q: &Value, o: &DocObs, st: &Stats, boosts: &mut Vec<f32>) -> Option<STe
     match q["k"].as_str().unwrap_or("") {
         "term" => {
             let w = q["w"].as_str().unwrap();
-            let tf = *o.tf.get(w).unwrap_or(&0);
+            let f = field_name(q);
+            let tf = o.tf.get(f).and_then(|m| m.get(w)).copied().unwrap_or(0);
             if tf == 0 {
                 return None;
             }
-            Some(STerm::Bm25 { n_docs: st.n_docs, n_tokens: st.n_tokens, ns: vec![*st.df.get(w).unwrap_or(&0)], tf, fnid: o.fnid, boosts: boosts.clone() })
+            Some(STerm::Bm25 { n_docs: st.n_docs, n_tokens: st.n_tokens[f], ns: vec![st.n(f, w)], tf, fnid: o.fnid[f], boosts: boosts.clone() })
         }
         "phrase" => {
             let ws: Vec<String> = q["ws"].as_array().unwrap().iter().map(|w| w.as_str().unwrap().to_string()).collect();
-            let tf = phrase_count(o, &ws);
+            let f = field_name(q);
+            let tf = phrase_count(o, f, &ws);
             if tf == 0 {
                 return None;
             }
-            Some(STerm::Bm25 { n_docs: st.n_docs, n_tokens: st.n_tokens, ns: ws.iter().map(|w| *st.df.get(w).unwrap_or(&0)).collect(), tf, fnid: o.fnid, boosts: boosts.clone() })
+            Some(STerm::Bm25 { n_docs: st.n_docs, n_tokens: st.n_tokens[f], ns: ws.iter().map(|w| st.n(f, w)).collect(), tf, fnid: o.fnid[f], boosts: boosts.clone() })
         }
         "bool" => {
             let mut args = vec![];
@@ -440,19 +508,10 @@ fn sterm(q: &Value, o: &DocObs, st: &Stats, boosts: &mut Vec<f32>) -> Option<STe
     }
 }
 
-fn run_query(searcher: &Searcher, body: Field, vocab: &[String], q: &Value, ks: &[usize], explain: bool) -> Result<Value, String> {
+fn run_query(searcher: &Searcher, fields: &Fields, vocab: &[String], q: &Value, ks: &[usize], explain: bool) -> Result<Value, String> {
     stage("build");
-    let query = build_query(q, body);
-    // the statistics the searcher hands to the weights
-    let mut df = BTreeMap::new();
-    for w in vocab {
-        df.insert(w.clone(), Bm25StatisticsProvider::doc_freq(searcher, &Term::from_field_text(body, w)).map_err(|e| e.to_string())?);
-    }
-    let st = Stats {
-        n_docs: Bm25StatisticsProvider::total_num_docs(searcher).map_err(|e| e.to_string())?,
-        n_tokens: Bm25StatisticsProvider::total_num_tokens(searcher, body).map_err(|e| e.to_string())?,
-        df,
-    };
+    let query = build_query(q, fields);
+    let st = Stats::read(searcher, fields, vocab)?;
     let ids: Vec<Vec<u64>> = searcher.segment_readers().iter().map(seg_ids).collect();
     // (b) every (doc, score)
     stage("collector");
@@ -463,7 +522,7 @@ fn run_query(searcher: &Searcher, body: Field, vocab: &[String], q: &Value, ks: 
     for (i, (seg, doc, score)) in all.iter().enumerate() {
         stage("observe");
         let sr = searcher.segment_reader(*seg);
-        let o = observe_doc(sr, body, vocab, *doc);
+        let o = observe_doc(sr, fields, vocab, *doc);
         let mut h = Map::new();
         h.insert("doc".into(), json!(ids[*seg as usize][*doc as usize]));
         h.insert("tfs".into(), json!(o.tf));
@@ -504,11 +563,7 @@ fn run_query(searcher: &Searcher, body: Field, vocab: &[String], q: &Value, ks: 
             .collect();
         tops.push(json!({"k": k, "res": res}));
     }
-    let mut dfj = Map::new();
-    for (w, n) in &st.df {
-        dfj.insert(w.clone(), json!(n));
-    }
-    Ok(json!({"N": st.n_docs, "T": st.n_tokens, "df": dfj, "hits": hits, "tops": tops}))
+    Ok(json!({"N": st.n_docs, "T": st.n_tokens, "df": st.df, "hits": hits, "tops": tops}))
 }
 
 // ------------------------------------------------------------------------------------------
@@ -621,16 +676,10 @@ fn histo_json(h: &BTreeMap<(u32, usize), BTreeMap<u32, u32>>, seg: u32, shape: u
 
 fn run_big_query(searcher: &Searcher, body: Field, vocab: &[String], q: &Value, ids: &[Vec<u64>], shape_of: &dyn Fn(u64) -> usize, nd: usize) -> Result<Value, String> {
     stage("build");
-    let query = build_query(q, body);
-    let mut df = BTreeMap::new();
-    for w in vocab {
-        df.insert(w.clone(), Bm25StatisticsProvider::doc_freq(searcher, &Term::from_field_text(body, w)).map_err(|e| e.to_string())?);
-    }
-    let st = Stats {
-        n_docs: Bm25StatisticsProvider::total_num_docs(searcher).map_err(|e| e.to_string())?,
-        n_tokens: Bm25StatisticsProvider::total_num_tokens(searcher, body).map_err(|e| e.to_string())?,
-        df,
-    };
+    let fields: Fields = vec![("body".to_string(), body)];
+    let fields = &fields;
+    let query = build_query(q, fields);
+    let st = Stats::read(searcher, fields, vocab)?;
     stage("collector");
     let mut all = searcher.search(&*query, &AllScores).map_err(|e| format!("collector: {e}"))?;
     all.sort_by_key(|(s, d, _)| ids[*s as usize][*d as usize]);
@@ -663,13 +712,13 @@ fn run_big_query(searcher: &Searcher, body: Field, vocab: &[String], q: &Value, 
         }
         stage("observe");
         let sr = searcher.segment_reader(*seg);
-        let o = observe_doc(sr, body, vocab, *doc);
+        let o = observe_doc(sr, fields, vocab, *doc);
         let mut h = Map::new();
         h.insert("doc".into(), json!(id));
         h.insert("seg".into(), json!(seg + 1));
         h.insert("local".into(), json!(doc));
-        h.insert("tfs".into(), json!(o.tf));
-        h.insert("fnid".into(), json!(o.fnid));
+        h.insert("tfs".into(), json!(o.tf["body"]));
+        h.insert("fnid".into(), json!(o.fnid["body"]));
         h.insert("coll".into(), score_json(*score));
         if let Some(t) = sterm(q, &o, &st, &mut vec![]) {
             h.insert("term".into(), sterm_json(&t));
@@ -692,11 +741,7 @@ fn run_big_query(searcher: &Searcher, body: Field, vocab: &[String], q: &Value, 
         hits.push(Value::Object(h));
     }
     let top10j: Vec<Value> = top10.iter().map(|(s, a)| json!({"doc": ids[a.segment_ord as usize][a.doc_id as usize], "s": score_json(*s)})).collect();
-    let mut dfj = Map::new();
-    for (w, n) in &st.df {
-        dfj.insert(w.clone(), json!(n));
-    }
-    Ok(json!({"N": st.n_docs, "T": st.n_tokens, "df": dfj, "nhits": n_all, "ntop": top_all.len(), "groups": groups, "hits": hits, "top10": top10j}))
+    Ok(json!({"N": st.n_docs, "T": st.n_tokens["body"], "df": st.df["body"], "nhits": n_all, "ntop": top_all.len(), "groups": groups, "hits": hits, "top10": top10j}))
 }
 
 fn panic_msg(e: Box<dyn std::any::Any + Send>) -> String {
@@ -719,7 +764,7 @@ fn run_case(tracer: &Tracer, case: &Value, explain_mode: &str, avoid: &str) {
     let explain_mode = case["explain"].as_str().unwrap_or(explain_mode).to_string();
     let avoid = case["avoid"].as_str().unwrap_or(avoid).to_string();
     tracer.emit(json!({"ev": "reset", "tag": case["tag"], "filler": case["filler"].as_str().unwrap_or("z"), "vocab": vocab,
-        "docs": case["docs"], "cuts": cuts, "dels": case.get("dels").cloned().unwrap_or(json!([]))}));
+        "fields": case_fields(case), "docs": case_docs(case), "cuts": cuts, "dels": case.get("dels").cloned().unwrap_or(json!([]))}));
     let built = std::panic::catch_unwind(std::panic::AssertUnwindSafe(|| -> Result<Vec<(String, Built)>, String> {
         let multi = build_index(case, &cuts, None).map_err(|e| e.to_string())?;
         let single = build_index(case, &[nd], None).map_err(|e| e.to_string())?;
@@ -750,7 +795,7 @@ fn run_case(tracer: &Tracer, case: &Value, explain_mode: &str, avoid: &str) {
         let r = std::panic::catch_unwind(std::panic::AssertUnwindSafe(|| -> Result<(Searcher, Value), String> {
             let searcher = b.index.reader().map_err(|e| e.to_string())?.searcher();
             let merged_id = b.merge.as_ref().and_then(|m| m.1);
-            let mut ev = json!({"ev": "index", "ix": name, "segs": observe_index(&searcher, b.body, &vocab, merged_id)});
+            let mut ev = json!({"ev": "index", "ix": name, "segs": observe_index(&searcher, &b.fields, &vocab, merged_id)});
             if let Some((srcs, _)) = &b.merge {
                 // certificate: the sources in the order in which the merged segment holds their documents
                 let merged_docs: Vec<u64> = ev["segs"].as_array().unwrap().iter().find(|s| s.get("merged").is_some())
@@ -764,7 +809,7 @@ fn run_case(tracer: &Tracer, case: &Value, explain_mode: &str, avoid: &str) {
         match r {
             Ok(Ok((s, ev))) => {
                 tracer.emit(ev);
-                searchers.push((name.clone(), s, b.body));
+                searchers.push((name.clone(), s, b.fields.clone()));
             }
             Ok(Err(e)) => {
                 tracer.emit(json!({"ev": "error", "where": "open", "ix": name, "msg": e}));
@@ -779,11 +824,11 @@ fn run_case(tracer: &Tracer, case: &Value, explain_mode: &str, avoid: &str) {
     for q in case["queries"].as_array().unwrap() {
         let mut runs = vec![];
         let mut failed = false;
-        for (name, s, body) in &searchers {
+        for (name, s, fields) in &searchers {
             let explain = explain_mode != "none";
             let no_tops: Vec<usize> = vec![];
             let ks_q = if avoid.contains("dismaxwand") && dismax_wand_class(q) { &no_tops } else { &ks };
-            let r = std::panic::catch_unwind(std::panic::AssertUnwindSafe(|| run_query(s, *body, &vocab, q, ks_q, explain)));
+            let r = std::panic::catch_unwind(std::panic::AssertUnwindSafe(|| run_query(s, fields, &vocab, q, ks_q, explain)));
             match r {
                 Ok(Ok(mut v)) => {
                     v["ix"] = json!(name);
@@ -895,6 +940,62 @@ fn dismax_wand_class(q: &Value) -> bool {
     let qs = q["qs"].as_array().unwrap();
     qs.iter().filter(|x| may_yield_term_scorer(x)).count() >= 2 && !qs.iter().any(const_like)
 }
+/// give every term / phrase leaf of a query a field
+fn assign_fields(q: &mut Value, rng: &mut StdRng, fields: &[&str]) {
+    match q["k"].as_str().unwrap_or("").to_string().as_str() {
+        "term" | "phrase" => {
+            q["f"] = json!(*pick(rng, fields));
+        }
+        "bool" => {
+            for c in q["cl"].as_array_mut().unwrap() {
+                assign_fields(&mut c["q"], rng, fields);
+            }
+        }
+        "dismax" => {
+            for x in q["qs"].as_array_mut().unwrap() {
+                assign_fields(x, rng, fields);
+            }
+        }
+        _ => assign_fields(&mut q["q"], rng, fields),
+    }
+}
+
+/// three scored fields of very different lengths (different field-norm buckets): f1 of 0..4 tokens,
+/// f2 padded to 30..300 tokens and more, f3 in between; conjunctions of terms of different fields
+/// (TopDocs scores them through the block-max intersection) and random trees over all fields
+fn make_multi_field(case: &mut Value, rng: &mut StdRng) {
+    let vocab = ["a", "b", "c"];
+    let fields = ["f1", "f2", "f3"];
+    let docs: Vec<Value> = case["docs"].as_array().unwrap().iter().map(|d| {
+        let n1 = rng.random_range(0..5);
+        let f1: Vec<&str> = (0..n1).map(|_| *pick(rng, &vocab)).collect();
+        let n3 = rng.random_range(0..7);
+        let f3: Vec<&str> = (0..n3).map(|_| *pick(rng, &["a", "b", "b", "c", "c", "c"])).collect();
+        let pad2 = d["pad"].as_u64().unwrap().max(rng.random_range(30..300));
+        json!({"f1": {"toks": f1, "pad": 0}, "f2": {"toks": d["toks"], "pad": pad2}, "f3": {"toks": f3, "pad": rng.random_range(5..41)}})
+    }).collect();
+    case["docs"] = json!(docs);
+    case["fields"] = json!(fields);
+    let t = |f: &str, w: &str| json!({"k": "term", "w": w, "f": f});
+    let must = |q: Value| json!({"o": "must", "q": q});
+    let should = |q: Value| json!({"o": "should", "q": q});
+    let (x, y, z) = (*pick(rng, &vocab), *pick(rng, &vocab), *pick(rng, &vocab));
+    let mut qs = vec![
+        json!({"k": "bool", "cl": [must(t("f1", x)), must(t("f2", y))]}),
+        json!({"k": "bool", "cl": [must(t("f2", x)), must(t("f1", y)), must(t("f3", z))]}),
+        json!({"k": "bool", "cl": [must(t("f3", y)), must(t("f1", x)), should(t("f2", z))]}),
+        json!({"k": "boost", "b": *pick(rng, &BOOSTS), "q": {"k": "bool", "cl": [must(t("f2", z)), must(t("f1", x))]}}),
+        json!({"k": "dismax", "tie": *pick(rng, &TIES), "qs": [t("f1", x), t("f2", x), {"k": "bool", "cl": [must(t("f3", y)), must(t("f1", z))]}]}),
+    ];
+    for q in case["queries"].as_array().unwrap().iter().take(7) {
+        let mut q = q.clone();
+        assign_fields(&mut q, rng, &fields);
+        qs.push(q);
+    }
+    case["queries"] = json!(qs);
+    case["ks"] = json!([1, 3, 10, 1000]);
+}
+
 fn rand_case(rng: &mut StdRng, tag: Value, avoid: &str, big: bool) -> Value {
     let vocab = ["a", "b", "c"];
     let nd = *pick(rng, &[1usize, 2, 3, 4, 5, 6, 8, 12, 20, 30]);
@@ -962,7 +1063,11 @@ fn rand_case(rng: &mut StdRng, tag: Value, avoid: &str, big: bool) -> Value {
     }
     let nq = 10;
     let queries: Vec<Value> = (0..nq).map(|_| { let d = rng.random_range(0..4); rand_query(rng, &vocab, d, avoid) }).collect();
-    json!({"tag": tag, "filler": "z", "vocab": vocab, "docs": docs, "cuts": cuts, "dels": dels, "merge": merge, "queries": queries, "ks": [1, 3, 1000]})
+    let mut case = json!({"tag": tag, "filler": "z", "vocab": vocab, "docs": docs, "cuts": cuts, "dels": dels, "merge": merge, "queries": queries, "ks": [1, 3, 1000]});
+    if rng.random_range(0..10) < 4 {
+        make_multi_field(&mut case, rng);
+    }
+    case
 }
 
 fn main() {
